@@ -81,6 +81,8 @@ def verus_pass(vacuity, seed_args=None, tag="", extracted=None):
         "verified": vr.get("verified"), "errors": vr.get("errors"),
         "failed_clauses": {f"{k[0]}|{k[1]}": v[:2] for k, v in fc.items()},
         "failed_fns": {k: v[:3] for k, v in ff.items()},
+        "panic_fns": {k: v[:3] for k, v in getattr(A, "panic_fns", {}).items()},
+        "calls_uncontracted": A.calls_uncontracted,
         "failed_theorems": {k: v[:2] for k, v in tf.items()},
         "hard": hard[:10], "rlimit": rl[:10],
         "contracted": A.contracted, "uncontracted": A.uncontracted, "external": A.external, "refused": A.refused,
@@ -347,6 +349,10 @@ def check_property(pid, tier, seed):
                 undecided.append(f"function {fn} could not be verified ({'; '.join(main['refused'][fn])[:200]}): clause {lab} undecided")
             elif r not in main["clauses"]:
                 undecided.append(f"LOST-ANCHOR: clause {r} not found in contracts/")
+            elif r in main["failed_clauses"] and fn in main.get("calls_uncontracted", {}):
+                # modular reasoning: nothing is known about a callee that has no contract (a function new to the tree), so this failure
+                # says "needs contract", not "property broken" - decided on the real code instead
+                undecided.append(f"clause {r} fails, but {fn} calls {', '.join(main['calls_uncontracted'][fn])} which has no contract (new function): undecided")
             elif r in main["failed_clauses"]:
                 (supporting if r in sup_refs else failed).append(("clause", r, main["failed_clauses"][r][0]))
         # trait-level clauses (declared on the prelude trait, e.g. `r == Self::de_res(..)`) are necessary only where the alternative asks for
@@ -368,7 +374,12 @@ def check_property(pid, tier, seed):
             sel = alt["body_of"]
             for fn, msgs in main["failed_fns"].items():
                 if sel == "*" or fn in sel:
-                    failed.append(("body", fn, msgs[0]))
+                    if fn in main.get("panic_fns", {}):
+                        # overflow / out-of-range / failed unwrap / reachable unreachable!() / a library panic condition
+                        failed.append(("body", fn, main["panic_fns"][fn][0]))
+                    else:
+                        # a proof step or a value precondition inside the body no longer goes through: not a panic by itself
+                        supporting.append(("body", fn, msgs[0]))
             for fn in main["refused"]:
                 if sel == "*" or fn in sel:
                     undecided.append(f"function {fn} could not be verified ({'; '.join(main['refused'][fn])[:200]}): panic-freedom undecided")
